@@ -65,7 +65,7 @@ func c06Run(ci interface{}, rec *Rec) {
 		refP = ref.CNFToProblem(c.CNF, n)
 	}
 	scen := fmt.Sprintf("%s+Solve/cert=chan/limit=%d", c.Front, c.Limit)
-	SetLearnedLimit(c.Limit, c.Limit > 0 && c.Limit <= 5)
+	SetLearnedLimit(c.Limit, c.Limit > 0)
 	cc := &C01Case{N: c.N, CNF: c.CNF}
 	pb, _ := c01Build(cc, c.Front, c.CNF, c.N, rec, scen)
 	if pb == nil {
